@@ -72,7 +72,7 @@ def run(chk, tier, jobs, deadline):
         ctl_cfgs = [("tp=tcp,target=a,c0=r:ga,rel=0,mon=1", 1), ("tp=tcp,target=srv,c0=x:ag,c1=r:t,rel=0,mon=1", 1),
                     ("tp=ux,target=b,big=1,c0=r:g,c1=r:k,c2=r:x,rel=99,mon=1", 1), ("tp=tcp,target=a,c0=r:g,c1=r:m,c2=x:g,rel=3,mon=1", 0)]
         for params, bound in ctl_cfgs:
-            res = harnesses.explore(exe, params, bound if q else bound + 1, 120 if q else 900, jobs=jobs, env=env)
+            res = harnesses.explore(exe, params, bound if q else bound + 1, 120 if q else 400, jobs=jobs, env=env)
             harnesses.merge_into(chk, res, PREFIXES, params)
             for k in ("states", "transitions", "executions"):
                 merged[k] += res.get(k, 0)
